@@ -189,6 +189,9 @@ pub fn run_program(p: &Program) -> (Vec<F>, String) {
 #[derive(serde::Serialize, serde::Deserialize, Clone, Debug, PartialEq)]
 pub enum Ev {
     Define { name: usize, ctx: usize },
+    /// a definition whose script is byte-identical to the current one of that (context, name):
+    /// it is the current definition from then on (its id stamps the results)
+    DefineSame { name: usize, ctx: usize },
     DefineInvalid { name: usize, ctx: usize },
     Call { name: usize, ctx: usize },
     /// two calls appended back to back (they overlap)
@@ -214,9 +217,14 @@ pub fn run_history(h: &[Ev]) -> (Vec<F>, String) {
     let mut calls: Vec<(Scru128Id, Option<(Scru128Id, String)>, usize, usize)> = vec![];
     for (step, ev) in h.iter().enumerate() {
         match ev {
-            Ev::Define { name, ctx } => {
-                version += 1;
-                let tag = format!("v{}", version);
+            Ev::Define { name, ctx } | Ev::DefineSame { name, ctx } => {
+                let tag = match (ev, defs.get(&(*ctx, *name))) {
+                    (Ev::DefineSame { .. }, Some((_, t))) => t.clone(),
+                    _ => {
+                        version += 1;
+                        format!("v{}", version)
+                    }
+                };
                 // 3 results tied to the call, a per-call counter (no state may leak between calls),
                 // and a context-scoped read (.cat sees only the definition's context)
                 let src = format!(
@@ -331,6 +339,7 @@ pub fn histories(depth: usize, thorough: bool) -> Vec<Vec<Ev>> {
             }
             if thorough || (name == 0 && ctx == 0) {
                 alphabet.push(Ev::DefineInvalid { name, ctx });
+                alphabet.push(Ev::DefineSame { name, ctx });
             }
         }
     }
@@ -388,12 +397,39 @@ pub fn run_replay_window(slow_ms: u64, fillers: usize, delay_ms: u64) -> (Vec<F>
         h.abort();
         let _ = w.rt.block_on(h);
     }
+    // the window starts when the new server has subscribed (a call appended before that is
+    // history for it and by design not executed): watch for its `read.sub`
+    struct SubWatch(std::sync::atomic::AtomicUsize);
+    impl xs::verif::Sched for SubWatch {
+        fn point(&self, p: &xs::verif::Point<'_>) {
+            // (the subscription is taken right after this point returns)
+            if p.op == "read.lock" {
+                self.0.fetch_add(1, std::sync::atomic::Ordering::SeqCst);
+            }
+        }
+        fn spawned(&self, _who: xs::verif::Who) {}
+        fn finished(&self, _who: xs::verif::Who) {}
+    }
+    let watch = std::sync::Arc::new(SubWatch(std::sync::atomic::AtomicUsize::new(0)));
+    let sched: std::sync::Arc<dyn xs::verif::Sched> = watch.clone();
+    w.store.verif_hooks().install(Some(sched));
     let (s, e) = (w.store.clone(), xs::nu::Engine::new().expect("nu engine"));
     let h = w.rt.spawn(async move {
         let _ = xs::commands::serve(s, e).await;
     });
     *w.commands_task.lock().unwrap() = Some(h);
-    std::thread::sleep(Duration::from_millis(delay_ms));
+    let t0 = std::time::Instant::now();
+    while watch.0.load(std::sync::atomic::Ordering::SeqCst) == 0 {
+        if t0.elapsed() > Duration::from_secs(20) {
+            fs.push(F { kind: "c19.harness".into(), msg: format!("{}: the restarted command server never subscribed", label) });
+            w.store.verif_hooks().install(None);
+            w.stop();
+            return (fs, "harness".into());
+        }
+        std::thread::sleep(Duration::from_millis(1));
+    }
+    w.store.verif_hooks().install(None);
+    std::thread::sleep(Duration::from_millis(5 + delay_ms));
     let c1 = w.append_c("slow.call", ctx, None, None);
     match w.wait(|f| (f.topic == "slow.complete" || f.topic == "slow.error") && meta_str(f, "frame_id") == Some(c1.id.to_string()), 15.0) {
         None => fs.push(F { kind: "c19.no_terminal".into(), msg: format!("{}: the call got no terminal event (it arrived after the definition and was never served)", label) }),
